@@ -10,6 +10,9 @@ import common
 import setupsim as S
 
 
+MS_OPTIONS, MS_DIRECTED, REFS, NEIGHBOURS, LOCAL_DIR = 40, 24, 24, 44, 16      # quick-tier sizes of the families added in round 5
+
+
 def gen_scenario(rng):
     w = S.gen_world(rng)
     reqs = [S.gen_request(rng, w, allow_fail=0.0) for _ in range(rng.choice([0, 1, 2, 3]))]
@@ -149,9 +152,18 @@ def oracle(ctx, s, res):
         for var, val, d in S.own_contributions(res, q, v)[0]:
             delims[var] = d
     mine = lambda x: any(x.startswith(dirs[(q, v)] + "/") or x == dirs[(q, v)] for (q, v) in dirs if q not in touched)
+    # an element that a command of a REACHED product contributes through a reference to another product's directory
+    # variable (envAppend(TOP_PATH, ${DEP_DIR}/share)) is that product's, wherever it points
+    foreign = set()
+    for (q, v) in dirs:
+        if q in touched:
+            for var, val, d in S.own_contributions(res, q, v)[0]:
+                if S.has_ref(val):
+                    for env in (before, after):
+                        foreign |= set((var, el) for el in S.path_contribution_elems(val, d, env))
     for var, d in sorted(delims.items()):
-        b = [x for x in S.uniq_list((before.get(var) or "").split(d)) if x and mine(x)]
-        a = [x for x in S.uniq_list((after.get(var) or "").split(d)) if x and mine(x)]
+        b = [x for x in S.uniq_list((before.get(var) or "").split(d)) if x and mine(x) and (var, x) not in foreign]
+        a = [x for x in S.uniq_list((after.get(var) or "").split(d)) if x and mine(x) and (var, x) not in foreign]
         if b != a:
             ctx.fail("bystander-path-elements", case, expected=b, observed=a,
                      what="elements of untouched products in %s changed: %r -> %r" % (var, b, a))
@@ -165,10 +177,99 @@ def oracle(ctx, s, res):
                 return
 
 
+def oracle_ms(ctx, s, res):
+    """bystanders and --keep on a world with several stacks: a bystander keeps its record (version AND stack), its
+    directory variable, the variables its declarations set and the order of the path elements under any of its
+    directories; with --keep every product set up before keeps its version and its stack"""
+    rec = res["records"][-1]
+    rq = rec["request"]
+    shape = ("keep" if rq.get("keep") else "just" if rq.get("just") else
+             "maxdepth%s" % rq["max_depth"] if rq.get("max_depth") is not None else
+             "unsetup" if not rq.get("fwd", True) else "plain")
+    before, after = rec["before"], rec["after"]
+    sb, sa = S.ms_records(before), S.ms_records(after)
+    second = any(v[1] != res["roots"][0] for v in sb.values())
+    ctx.count(1, key="ms/%s%s/%s/%s" % ("cli:" if rq.get("cli") else "", shape, "ok" if rec["ok"] else "failed",
+                                        "prior-from-second-stack" if second else "prior-from-first-stack" if sb else "nothing-before"),
+              nontrivial=json.dumps([s["world"], s["requests"]], sort_keys=True) if (sb and rec["ok"]) else None)
+    if not rec["ok"]:
+        return
+    case = {"world": s["world"], "requests": s["requests"], "env0": s["env0"]}
+    md, just = S.model_opts(rq)
+    touched = S.ms_touched_names(res, rq["name"], just=just, max_depth=md)
+    for q in sorted(S.ms_world_graph(res)):
+        if q in touched:
+            continue
+        for var in ("SETUP_" + q.upper(), q.upper() + "_DIR"):
+            if before.get(var) != after.get(var):
+                ctx.fail("bystander-record", case, expected=S.strip_roots(res, before.get(var)), observed=S.strip_roots(res, after.get(var)),
+                         what="%s is not reachable within the stated depth from %s but %s changed" % (q, rq["name"], var))
+                return
+        for info in res["parsed"]:
+            if info["name"] == q:
+                for var in S.ms_contributions(info)[1]:
+                    if before.get(var) != after.get(var):
+                        ctx.fail("bystander-variable", case, expected=S.strip_roots(res, before.get(var)),
+                                 observed=S.strip_roots(res, after.get(var)), what="variable %s of bystander %s changed" % (var, q))
+                        return
+    delims = {}
+    for info in res["parsed"]:
+        for var, val, d in S.ms_contributions(info)[0]:
+            delims[var] = d
+    bdirs = [i["dir"] for i in res["parsed"] if i["name"] not in touched]
+    mine = lambda x: any(x == d or x.startswith(d + "/") for d in bdirs)
+    for var, d in sorted(delims.items()):
+        b = [x for x in S.uniq_list((before.get(var) or "").split(d)) if x and mine(x)]
+        a = [x for x in S.uniq_list((after.get(var) or "").split(d)) if x and mine(x)]
+        if b != a:
+            ctx.fail("bystander-path-elements", case, expected=S.strip_roots(res, b), observed=S.strip_roots(res, a),
+                     what="elements of untouched products in %s changed" % var)
+            return
+    if rq.get("keep"):
+        for q, v in sb.items():
+            if q != rq["name"] and sa.get(q) != v:
+                ctx.fail("keep-lost", case, expected=S.strip_roots(res, {q: v}), observed=S.strip_roots(res, {q: sa.get(q)}),
+                         what="with --keep, %s was set up as %r before the request and is %r after it" % (
+                             q, S.strip_roots(res, v), S.strip_roots(res, sa.get(q))))
+                return
+
+
+def oracle_local(ctx, s, res):
+    """products set up from a directory (setup -r): with --keep every product that was set up keeps its record -
+    version LOCAL:dir and all; the bystander keeps its record and directory variable in every mode"""
+    rec = res["records"][-1]
+    rq = rec["request"]
+    before, after = rec["before"], rec["after"]
+    sb = {k: v for k, v in before.items() if k.startswith("SETUP_")}
+    local = any(" LOCAL:" in v for v in sb.values())
+    ctx.count(1, key="local-directory/%s/%s/%s" % ("keep" if rq.get("keep") else "plain", "ok" if rec["ok"] else "failed",
+                                                   "directory-version-set-up-before" if local else "declared-versions-before"),
+              nontrivial=json.dumps([s["world"], s["requests"]], sort_keys=True) if (sb and rec["ok"]) else None)
+    if not rec["ok"]:
+        return
+    case = {"world": s["world"], "requests": s["requests"], "env0": s["env0"], "locals": s["locals"]}
+    for var in ("SETUP_Z", "Z_DIR"):
+        if rq["name"] != "z" and before.get(var) != after.get(var):
+            ctx.fail("bystander-record", case, expected=before.get(var), observed=after.get(var),
+                     what="z is not reachable from %s but %s changed" % (rq["name"], var))
+            return
+    if rq.get("keep"):
+        for var, v in sorted(sb.items()):
+            if var != "SETUP_" + rq["name"].upper() and after.get(var) != v:
+                ctx.fail("keep-lost", case, expected={var: v}, observed={var: after.get(var)},
+                         what="with --keep, %s was %r before the request and is %r after it" % (var, v, after.get(var)))
+                return
+
+
 def run(ctx):
     ctx.rule = ("random worlds (3-5 products x 1-3 versions, acyclic tables with path/envSet/alias commands and required/"
                 "optional/versioned/expression/-j dependencies, stack path with or without a blank), 0-3 prior real "
-                "setups, planted path content; final request plain / --keep / --just / --max-depth N / unsetup; a case is "
+                "setups, planted path content; final request plain / --keep / --just / --max-depth N / unsetup; worlds of "
+                "two stacks (random, and directed: --keep while a dependency is set up from a stack the request does not "
+                "select with -Z / -z); neighbours: a bystander whose name has the name of a reached product as a prefix "
+                "(afw / afwdata, either way round), -j on table lines with the owner unset up or replaced while the "
+                "dependencies of the product below were set up on their own, the exact block of an expanded table; "
+                "tables whose values refer to other variables; a case is "
                 "non-trivial when the final request succeeds from an environment in which something is set up; "
                 "distinct = distinct (world, requests)")
     ctx.trusted_base = common.COMMON_TRUSTED + [
@@ -179,33 +280,62 @@ def run(ctx):
         "(coq/Model/ResolveReal.v, real-comparator-comparisons) on every world, those of gen_world_versions included; "
         "compared: success, environment, aliases, decisions",
         "table files enter the model as the actions the real parser derives from them (C11 models the parser)"]
-    ctx.assumptions = ["one stack, one flavor, declared products only (no setup -r, no --force)",
+    ctx.assumptions = ["declared products only (no setup -r, no --force: --keep with a product set up from a directory is "
+                       "not exercised); reachability in the oracle reads the -j of table lines (a -j line reaches its "
+                       "product and nothing below it: touches_j of Proofs/SetupFrameJ.v, setup_changes_only_what_it_reaches_j)",
                        "keep_retains: WF2, Eups.keep set and keep at the head of the VRO (what --keep does), a non-empty "
                        "flavor list; composed model: dependency lines without -t / --vro / -k",
                        "WF world of Proofs/SetupFrame.v for the theorems: path values non-empty, delimiter-free, "
                        "dollar-free; one delimiter per path variable; path, envSet and SETUP_/_DIR variables disjoint"]
     ctx.check_theorems()
-    scenarios = S.corpus("C04") + [gen_scenario(ctx.rng) for _ in range(ctx.size(260, 3000))]
+    scenarios = [c for c in S.corpus("C04") if not S.is_ms(c["world"])] + [gen_scenario(ctx.rng) for _ in range(ctx.size(190, 3000))]
     for s in scenarios[:3]:
         ctx.sample({"requests": s["requests"], "env0": s["env0"], "products": s["world"]["products"]})
     for i in range(0, len(scenarios), 400):
         S.run_scenarios(ctx, scenarios[i:i + 400], oracle)
     # the same through the command-line front end (setupcmd.EupsSetup)
-    cli = [gen_scenario_cli(ctx.rng) for _ in range(ctx.size(120, 1500))]
+    cli = [gen_scenario_cli(ctx.rng) for _ in range(ctx.size(90, 1500))]
     for i in range(0, len(cli), 400):
         S.run_scenarios(ctx, cli[i:i + 400], oracle)
     # --keep / --just / --max-depth / unsetup on worlds with version names of C10's grammar: the composed model with the
     # real comparator (coq/Model/ResolveReal.v) decides every version
     versions = [s for s in S.directed_version_scenarios() if len(s["requests"]) == 3] + \
-               [S.gen_scenario_versions(ctx.rng, "options") for _ in range(ctx.size(100, 1200))]
+               [S.gen_scenario_versions(ctx.rng, "options") for _ in range(ctx.size(70, 1200))]
     for i in range(0, len(versions), 400):
         S.run_scenarios(ctx, versions[i:i + 400], oracle)
+    # several stacks on EUPS_PATH (coq/Model/SetupMS*.v): --keep / --just / --max-depth / unsetup with products set up from
+    # the second stack, the same name and version declared in both, requests with -Z / -z, through Eups and through the CLI
+    ms = [c for c in S.corpus("C04") if S.is_ms(c["world"])] + \
+         [S.gen_scenario_ms(ctx.rng, "options") for _ in range(ctx.size(MS_OPTIONS, 1200))] + \
+         [S.gen_scenario_ms_directed(ctx.rng, "options") for _ in range(ctx.size(MS_DIRECTED, 600))]
+    for sc in ms:
+        if sc["world"].get("family", "").startswith("ms-"):
+            ctx.bump("family:" + sc["world"]["family"])
+    for i in range(0, len(ms), 400):
+        S.run_scenarios_ms(ctx, ms[i:i + 400], oracle_ms)
+    # neighbours: a bystander whose NAME has the name of a reached product as a prefix (or the other way round), -j on
+    # table lines while the owner is unset up or replaced (the dependencies of the product below were set up on their
+    # own and are bystanders), the block of an expanded table; table values that refer to other variables
+    nb = [S.gen_scenario_neighbours(ctx.rng) for _ in range(ctx.size(NEIGHBOURS, 900))] + \
+         [S.gen_scenario_refs(ctx.rng, "options") for _ in range(ctx.size(REFS, 600))]
+    for sc in nb:
+        ctx.bump("family:" + sc["world"]["family"])
+    for i in range(0, len(nb), 400):
+        S.run_scenarios(ctx, nb[i:i + 400], oracle)
+    # products set up from a DIRECTORY (setup -r dir, version LOCAL:dir): outside the setup models, run on the real code
+    # and judged by the oracle alone - --keep must retain them like any other product
+    S.run_scenarios_local(ctx, [S.gen_scenario_local(ctx.rng) for _ in range(ctx.size(LOCAL_DIR, 300))], oracle_local)
 
 
 def replay(ctx, path):
     obj = json.load(open(path))
     s = obj["input"]
-    S.run_scenarios(ctx, [s], oracle)
+    if "locals" in s:
+        S.run_scenarios_local(ctx, [s], oracle_local)
+    elif S.is_ms(s["world"]):
+        S.run_scenarios_ms(ctx, [s], oracle_ms)
+    else:
+        S.run_scenarios(ctx, [s], oracle)
     bad = [f for f in ctx.failures if not ctx._known(f)] or ctx.disagreements
     print("replay %s: %s" % (path, "still fails" if bad else "passes"))
     return 1 if bad else 0
